@@ -201,7 +201,23 @@ def check(run):
                 "firing count from the small-mean Poisson sampler, applies them and compares with the next observed state, exactly. Draws "
                 "within 1e-9 a0 of a channel boundary / within 2^-48 of the Poisson threshold stop the replay of that run (counted). "
                 "non-trivial = >= 2 steps")
-    res = core.decide(run, items, IMPORTS, "accept_C07", oracle, shard=6)
+    # long Gillespie runs at low copy numbers (cells empty and refill: histories matter), screened by the legality oracle;
+    # the Coq replay judges a fixed-size prefix above and every run the screen objects to
+    nb = 500 if run.tier == "quick" else 10000
+    bulk = []
+    for _ in range(nb):
+        c = make_case(rng, run.tier)
+        c["engine"] = "gillespie"
+        c["nsteps"] = rng.randint(100, 400)
+        c["t_max"] = c["dt"] * 10 ** 6
+        c["state"] = [float(rng.choice([0, 0, 1, 1, 2, 3])) for _ in c["state"]]
+        bulk.append(c)
+    bitems = build_items(bulk, None)
+    flagged = [it for it in bitems if oracle(it)[0] is False][:8]
+    run.extra["long_runs_screened_by_legality_oracle"] = len(bitems)
+    run.extra["steps_screened"] = sum(len(it["obs"]["states"]) - 1 for it in bitems)
+    run.extra["screen_objections"] = len(flagged)
+    res = core.decide(run, items + flagged, IMPORTS, "accept_C07", oracle, shard=6)
     summarise(run, res)
 
 
